@@ -22,6 +22,7 @@ import (
 	fdag "github.com/ErdemOzgen/blackdagger/internal/frontend/dag"
 	"github.com/ErdemOzgen/blackdagger/internal/frontend/gen/restapi/operations"
 	"github.com/ErdemOzgen/blackdagger/internal/frontend/gen/restapi/operations/dags"
+	"github.com/ErdemOzgen/blackdagger/internal/persistence"
 	"github.com/ErdemOzgen/blackdagger/internal/persistence/jsondb"
 	"github.com/ErdemOzgen/blackdagger/internal/persistence/model"
 	"github.com/ErdemOzgen/blackdagger/internal/sock"
@@ -56,6 +57,8 @@ type liveAgent struct {
 // world is one scratch installation with the real handler on top.
 type world struct {
 	env    *venv.Env
+	base   base
+	stores persistence.DataStores // the data stores of the handler's client (long-lived: its history store caches)
 	cl     client.Client
 	api    *operations.BlackdaggerAPI
 	stub   string
@@ -79,7 +82,7 @@ func setup(dir string, b base) (*world, error) {
 		}
 		break
 	}
-	w := &world{env: venv.New(dir), day: time.Now().Format("20060102")}
+	w := &world{env: venv.New(dir), base: b, day: time.Now().Format("20060102")}
 	if err := os.MkdirAll(filepath.Join(dir, "bin"), 0o755); err != nil {
 		return nil, err
 	}
@@ -96,28 +99,28 @@ func setup(dir string, b base) (*world, error) {
 			return nil, err
 		}
 	}
-	w.cl = client.New(w.env.Stores(), w.stub, w.env.Root, venv.Quiet)
+	w.stores = w.env.Stores()
+	w.cl = client.New(w.stores, w.stub, w.env.Root, venv.Quiet)
 	w.api = &operations.BlackdaggerAPI{}
 	fdag.NewHandler(&fdag.NewHandlerArgs{Client: w.cl}, nil, "").Configure(w.api)
 
 	now := time.Now()
-	for _, d := range []struct{ n, s string }{{"d1", b.D1}, {"d2", b.D2}} {
-		if d.s == "none" {
-			continue
-		}
-		if err := w.record(d.n, runID(d.n, "old"), "finished", now.Add(-4*time.Second)); err != nil {
-			return nil, err
-		}
-		if d.s != "running" {
-			if err := w.record(d.n, runID(d.n, "new"), d.s, now.Add(-2*time.Second)); err != nil {
+	for _, n := range []string{"d1", "d2"} {
+		for _, r := range runsOf(b, n) {
+			if r.Live {
+				continue
+			}
+			if err := w.record(n, r.ID, r.State, now.Add(-time.Duration(r.Age)*time.Second)); err != nil {
 				return nil, err
 			}
 		}
 	}
-	for _, d := range []struct{ n, s string }{{"d1", b.D1}, {"d2", b.D2}} {
-		if d.s == "running" {
-			if err := w.startAgent(d.n); err != nil {
-				return nil, err
+	for _, n := range []string{"d1", "d2"} {
+		for _, r := range runsOf(b, n) {
+			if r.Live {
+				if err := w.startAgent(n, r.ID); err != nil {
+					return nil, err
+				}
 			}
 		}
 	}
@@ -137,7 +140,7 @@ func (w *world) record(name, reqID, state string, at time.Time) error {
 		n := st.Nodes[i]
 		n.Status, n.StatusText, n.Error = s, s.String(), errText
 		n.StartedAt, n.FinishedAt = model.FormatTime(at), model.FormatTime(end)
-		n.Log = filepath.Join(w.env.Logs, name, fmt.Sprintf("%s.%s.log", n.Step.Name, reqID[:8]))
+		n.Log = filepath.Join(w.env.Logs, name, fmt.Sprintf("%s.%s.log", n.Step.Name, trunc8(reqID)))
 		n.DoneCount = 1
 	}
 	switch state {
@@ -160,7 +163,7 @@ func (w *world) record(name, reqID, state string, at time.Time) error {
 		return fmt.Errorf("unknown state %q", state)
 	}
 	st.RequestID = reqID
-	st.Log = filepath.Join(w.env.Logs, name, "agent_"+reqID[:8]+".log")
+	st.Log = filepath.Join(w.env.Logs, name, "agent_"+trunc8(reqID)+".log")
 	hs := w.env.Stores().HistoryStore()
 	if err := hs.Open(w.loc(name), at, reqID); err != nil {
 		return err
@@ -173,7 +176,7 @@ func (w *world) record(name, reqID, state string, at time.Time) error {
 
 // startAgent runs the DAG with the real agent in this process; its first step hangs in the scripted executor,
 // so the run stays "running" and the real unix-socket server answers.
-func (w *world) startAgent(name string) error {
+func (w *world) startAgent(name, reqID string) error {
 	steps := stepsOf[name]
 	cur := vexec.Current()
 	if cur == nil {
@@ -181,7 +184,7 @@ func (w *world) startAgent(name string) error {
 	}
 	cur.Scripts[steps[0]] = &vexec.Script{Hang: true}
 	d := w.env.DAG(name, vexec.Step(steps[0]), vexec.Step(steps[1], steps[0]))
-	a := w.env.Agent(runID(name, "liv"), d, &agent.Options{})
+	a := w.env.Agent(reqID, d, &agent.Options{})
 	la := &liveAgent{name: name, a: a, done: make(chan error, 1), sock: d.SockAddr()}
 	w.socks = append(w.socks, la.sock)
 	t0 := time.Now()
@@ -211,7 +214,7 @@ func (w *world) startAgent(name string) error {
 	// the agent records "running" with its own "+100 ms" status write (the only write until a step ends):
 	// wait until that record is on disk before anything is observed
 	_ = t0
-	key := fmt.Sprintf("run:%s:%s:", name, runID(name, "liv"))
+	key := fmt.Sprintf("run:%s:%s:", name, reqID)
 	for {
 		d := w.dump()
 		if d[key+"Status"] == "1" && d[key+"Nodes[0].Status"] == "1" {
@@ -348,13 +351,138 @@ func (w *world) dump() dump {
 				pat = old + "+" + pat
 			}
 			d["runfile:"+key] = pat
-			js, _ := st.ToJSON()
-			var v any
-			_ = json.Unmarshal(js, &v)
-			flatten("run:"+key+":", v, d)
+			for _, kv := range flatStatus(st, false) {
+				d["run:"+key+":"+kv[0]] = kv[1]
+			}
 		}
 	}
+	w.views(d)
 	return d
+}
+
+// liveNow: the DAG has a live agent in this world whose run has not returned.
+func (w *world) liveNow(name string) bool {
+	la := w.agentOf(name)
+	if la == nil {
+		return false
+	}
+	select {
+	case err := <-la.done:
+		la.done <- err
+		return false
+	default:
+		return true
+	}
+}
+
+// views adds the history as the HistoryStore interface returns it: through the store instance of the handler's
+// client ("api": long-lived, with its status cache — what the next API request is answered from) and through a
+// fresh instance ("fresh": what another process sees). For every DAG with a definition file: lookup by request id
+// of every id on record anywhere in the base state and of an unknown one, the recent-history list, the latest
+// status. The API shows a run recorded as running whose process is gone as failed (client.GetLatestStatus relabels
+// the cached object in place), so such a status is written relabelled here; what is on disk stays visible in run:.
+func (w *world) views(d dump) {
+	fresh := jsondb.New(w.env.Data, w.env.LatestToday)
+	defer fresh.VerifC06Stop()
+	insts := []struct {
+		name string
+		hs   persistence.HistoryStore
+	}{{"api", w.stores.HistoryStore()}, {"fresh", fresh}}
+	var names []string
+	if des, err := os.ReadDir(w.env.DAGs); err == nil {
+		for _, de := range des {
+			if n := strings.TrimSuffix(de.Name(), ".yaml"); n != de.Name() {
+				names = append(names, n)
+			}
+		}
+	}
+	put := func(prefix, dagName string, st *model.Status) {
+		for _, kv := range flatStatus(st, st.Status == scheduler.StatusRunning && !w.liveNow(dagName)) {
+			d[prefix+kv[0]] = kv[1]
+		}
+	}
+	// request ids looked up under a DAG: through the api instance its own runs, the newest run of every other DAG
+	// and the unknown id; through the fresh instance the runs of the DAG the edits address (d1, or d3 after a rename)
+	idsFor := func(inst, dagName string) []string {
+		var out []string
+		for _, dn := range []string{"d1", "d2"} {
+			rs := runsOf(w.base, dn)
+			switch {
+			case dn == dagName || (dagName == "d3" && dn == "d1"):
+				if inst != "api" && dn != "d1" {
+					continue
+				}
+				for _, r := range rs {
+					out = append(out, r.ID)
+				}
+			case inst == "api" && len(rs) > 0:
+				out = append(out, rs[len(rs)-1].ID)
+			}
+		}
+		if inst == "api" {
+			out = append(out, unknownID)
+		}
+		return out
+	}
+	for _, in := range insts {
+		for _, n := range names {
+			loc := w.loc(n)
+			for _, id := range idsFor(in.name, n) {
+				k := fmt.Sprintf("find[%s]:%s:%s", in.name, n, id)
+				sf, err := in.hs.FindByRequestID(loc, id)
+				if err != nil || sf == nil || sf.Status == nil {
+					d[k] = "not found"
+					continue
+				}
+				put(k+":", n, sf.Status)
+			}
+			var ids []string
+			for i, sf := range in.hs.ReadStatusRecent(loc, 10) {
+				if sf == nil || sf.Status == nil {
+					ids = append(ids, "?nil")
+					continue
+				}
+				ids = append(ids, sf.Status.RequestID)
+				put(fmt.Sprintf("recent[%s]:%s:%d:", in.name, n, i), n, sf.Status)
+			}
+			d[fmt.Sprintf("recent[%s]:%s", in.name, n)] = strings.Join(ids, ",")
+			k := fmt.Sprintf("latest[%s]:%s", in.name, n)
+			if st, err := in.hs.ReadStatusToday(loc); err != nil || st == nil {
+				d[k] = "none"
+			} else {
+				put(k+":", n, st)
+			}
+		}
+	}
+}
+
+// flatMemo: leaves of a status by its JSON text (the same records are flattened many times per member).
+var flatMemo = map[string][][2]string{}
+
+// flatStatus: every leaf of a status as (JSON path, value); relabel: written as the API shows a run recorded as
+// running whose process is gone (failed).
+func flatStatus(st *model.Status, relabel bool) [][2]string {
+	js, _ := st.ToJSON()
+	mk := fmt.Sprintf("%v|%s", relabel, js)
+	if lv, ok := flatMemo[mk]; ok {
+		return lv
+	}
+	var v any
+	_ = json.Unmarshal(js, &v)
+	if mp, isMap := v.(map[string]any); isMap && relabel {
+		mp["Status"], mp["StatusText"] = float64(scheduler.StatusError), scheduler.StatusError.String()
+	}
+	tmp := dump{}
+	flatten(":", v, tmp)
+	var lv [][2]string
+	for k, val := range tmp {
+		lv = append(lv, [2]string{k[1:], val})
+	}
+	if len(flatMemo) > 4096 {
+		flatMemo = map[string][][2]string{}
+	}
+	flatMemo[mk] = lv
+	return lv
 }
 
 func flatten(prefix string, v any, out dump) {
